@@ -85,4 +85,68 @@ theorem C05_select_from_example :
   C05_select_from_accepted _ _ (plainWord_of_mem _ 99 _ rfl (by decide) (by decide)) (by decide +kernel) (by decide +kernel)
     (by decide +kernel) (plainWord_of_mem _ 116 _ rfl (by decide) (by decide)) (by decide +kernel)
 
+/-- generic composition: a text whose last character is not stripped and which the lexer model tokenises is handed to the LR driver
+with exactly the ids of those tokens -/
+theorem parseSql_of_lex (L : Lang) (s : List Nat) (segs : List Seg) (fuel : Nat)
+    (hlast : ∀ x, s.getLast? = some x → L.strip.mem x = false) (hl : lex L.cfg s = .ok segs) :
+    parseSql L s fuel = (.ok segs, some (parse L.tables L.mode false (ids L.names segs) fuel)) := by
+  unfold parseSql
+  rw [rstrip_id L.strip s hlast]
+  simp only [hl]
+
+theorem last_digit_not_stripped : MindsVerif.Re.disjointR LexRe_mindsdb.stripSet digitSet = true := by decide +kernel
+
+theorem select_from_limit_ids_accepted :
+    Outcome.accepted (parse Tables_mindsdb.tables .drain false
+      [tid LexRe_mindsdb.termNames "SELECT", tid LexRe_mindsdb.termNames "ID", tid LexRe_mindsdb.termNames "FROM",
+       tid LexRe_mindsdb.termNames "ID", tid LexRe_mindsdb.termNames "LIMIT", tid LexRe_mindsdb.termNames "INTEGER"] 300) = true := by
+  decide +kernel
+
+/-- **`parse_sql('select <a> from <t> limit <n>', 'mindsdb')` is accepted for all names `a`, `t` and all digit strings `n`** -/
+theorem C05_select_from_limit_accepted (a t n : List Nat)
+    (ha : PlainWord a) (hab : stopOKw LexRe_mindsdb.cfg 32 a = true) (hak : isKw LexRe_mindsdb.cfg a = false)
+    (hanone : kwRuleOf LexRe_mindsdb.cfg a = none)
+    (ht : PlainWord t) (htb : stopOKw LexRe_mindsdb.cfg 32 t = true) (htk : isKw LexRe_mindsdb.cfg t = false)
+    (htnone : kwRuleOf LexRe_mindsdb.cfg t = none)
+    (hne : n ≠ []) (hn : ∀ x ∈ n, inSet digitSet x) :
+    ∃ segs o, parseSql langMindsdb
+        ([115, 101, 108, 101, 99, 116, 32] ++ a ++ [32, 102, 114, 111, 109, 32] ++ t ++ [32, 108, 105, 109, 105, 116, 32] ++ n) 300
+          = (.ok segs, some o) ∧ Outcome.accepted o = true ∧
+      (tokensFrom 0 segs).map (·.1) = ["SELECT", "ID", "FROM", "ID", "LIMIT", "INTEGER"] := by
+  have hlex := C04_select_from_limit_mindsdb a t n ha hab hak hanone ht htb htk htnone hne hn
+  have hlast : ∀ x, ([115, 101, 108, 101, 99, 116, 32] ++ a ++ [32, 102, 114, 111, 109, 32] ++ t ++ [32, 108, 105, 109, 105, 116, 32] ++ n).getLast?
+      = some x → langMindsdb.strip.mem x = false := by
+    intro x hx
+    have hxn : x ∈ n := by
+      rw [List.getLast?_append] at hx
+      cases hl : n.getLast? with
+      | none => rw [List.getLast?_eq_none_iff] at hl; exact absurd hl hne
+      | some y =>
+        rw [hl] at hx
+        simp at hx
+        subst hx
+        exact List.mem_of_getLast? hl
+    cases hm : CSet.mem langMindsdb.strip x with
+    | false => rfl
+    | true => exact (disjointR_sound last_digit_not_stripped (mem_sound hm) (hn x hxn)).elim
+  have h := parseSql_of_lex langMindsdb _ _ 300 hlast hlex
+  have hids : ids langMindsdb.names [.tok "SELECT" false [115, 101, 108, 101, 99, 116], .skip 32, .tok "ID" false a, .skip 32,
+           .tok "FROM" false [102, 114, 111, 109], .skip 32, .tok "ID" false t, .skip 32,
+           .tok "LIMIT" false [108, 105, 109, 105, 116], .skip 32, .tok "INTEGER" false n] =
+      [tid LexRe_mindsdb.termNames "SELECT", tid LexRe_mindsdb.termNames "ID", tid LexRe_mindsdb.termNames "FROM",
+       tid LexRe_mindsdb.termNames "ID", tid LexRe_mindsdb.termNames "LIMIT", tid LexRe_mindsdb.termNames "INTEGER"] := by
+    simp [ids, tokensFrom, langMindsdb]
+  rw [hids] at h
+  exact ⟨_, _, h, select_from_limit_ids_accepted, by simp [tokensFrom]⟩
+
+/-- non-vacuity: `col1`, `tab1`, `10` -/
+theorem C05_select_from_limit_example :
+    ∃ segs o, parseSql langMindsdb
+        ([115, 101, 108, 101, 99, 116, 32] ++ [99, 111, 108, 49] ++ [32, 102, 114, 111, 109, 32] ++ [116, 97, 98, 49] ++ [32, 108, 105, 109, 105, 116, 32] ++ [49, 48]) 300
+          = (.ok segs, some o) ∧ Outcome.accepted o = true ∧
+      (tokensFrom 0 segs).map (·.1) = ["SELECT", "ID", "FROM", "ID", "LIMIT", "INTEGER"] :=
+  C05_select_from_limit_accepted _ _ _ (plainWord_of_mem _ 99 _ rfl (by decide) (by decide)) (by decide +kernel) (by decide +kernel)
+    (by decide +kernel) (plainWord_of_mem _ 116 _ rfl (by decide) (by decide)) (by decide +kernel) (by decide +kernel) (by decide +kernel)
+    (by simp) (by intro x hx; apply mem_sound; simp only [List.mem_cons, List.not_mem_nil, or_false] at hx; rcases hx with rfl | rfl <;> decide)
+
 end MindsVerif.Props.C05Stmt
